@@ -95,7 +95,7 @@ LITERAL_TARGETS = {"{'x': int}", '(int,)', '(str, str)'}   # type literals: only
 
 NEVER = ('lit', ('\x00never',))
 CONTEXTS = ['top', 'list-element', 'tuple-slot', 'mapping-value', 'mapping-key', 'optional', 'union-never', 'struct-field',
-            'dataclass-by-name', 'dataclass-by-position']
+            'dataclass-by-name', 'dataclass-by-position', 'dataclass-constructor', 'dataclass-replace']
 
 
 def embed(ctx_name: str, tspec: t.Any, v: t.Any, tname: str) -> t.Optional[t.Tuple[t.Any, t.Any]]:
@@ -132,6 +132,11 @@ def embed(ctx_name: str, tspec: t.Any, v: t.Any, tname: str) -> t.Optional[t.Tup
     if ctx_name == 'dataclass-by-position':
         return ('cls', {'name': 'C02P', 'fields': [{'name': 'pad', 'type': S('int')}, {'name': 'f', 'type': tspec}],
                         'opts': {'in_format': ['tuple']}}), [0, v]
+    if ctx_name in ('dataclass-constructor', 'dataclass-replace'):
+        # the value reaches the field through Cls(pad=.., f=v, tail=..) / inst.__replace__(f=v, tail=..): other fields, of other
+        # types, are given in the same call
+        return ('cls', {'name': 'C02K', 'fields': [{'name': 'pad', 'type': S('int')}, {'name': 'f', 'type': tspec}, {'name': 'tail', 'type': S('str')}],
+                        'opts': {}}), {'pad': 0, 'f': v, 'tail': 's'}
     raise ValueError(ctx_name)
 
 
@@ -165,7 +170,13 @@ def check(case: t.Any, ctx: Ctx) -> None:
                                                  "Literal['5', 5, True]", 'ValueOrList[int]', 'ndarray[int64]')
     ctx.label(f"{'cross' if cross else 'same'}-kind:{cname}")
     ctx.nontrivial(cross and cname != 'top')
-    (k, got) = outcome(lambda: pane.from_data(wv, nd.pytype()))
+    if cname == 'dataclass-constructor':
+        (k, got) = outcome(lambda: nd.pytype()(**wv))
+    elif cname == 'dataclass-replace':
+        base = nd.pytype().make_unchecked(pad=5, f=None, tail='')
+        (k, got) = outcome(lambda: base.__replace__(f=v, pad=0, tail='s'))
+    else:
+        (k, got) = outcome(lambda: pane.from_data(wv, nd.pytype()))
     cell = f"{vkind} value {short(v, 40)} -> {tname} [{cname}]"
     if k == 'exc':
         ctx.fail('strict-kinds', f"exception:{type(got).__name__}", f"{cell}: raised {type(got).__name__}: {str(got)[:200]}")
@@ -198,7 +209,7 @@ def check(case: t.Any, ctx: Ctx) -> None:
 
 # ---- contexts composed two or three deep (Hypothesis) ------------------------------------------------------
 
-COMPOSABLE = [c for c in CONTEXTS if c not in ('top', 'struct-field')]
+COMPOSABLE = [c for c in CONTEXTS if c not in ('top', 'struct-field', 'dataclass-constructor', 'dataclass-replace')]
 
 
 def deep_cases():
